@@ -346,6 +346,17 @@ func runC15(c *kc.Ctx) {
 		r := c.Rng.Fork(fmt.Sprintf("variants/%s/%d", e.name, hi))
 		cs := t.verifyPair(e, "honest", hn.in, hn.real, hn.cells, hn.real, hn.mock, "accept")
 		t.judge(cs, "C15:pair:honest-rejected")
+		if hi%3 == 0 || hn.in.k >= 8 {
+			in := hn.in
+			mk := func() proof.Verifier {
+				return shuffle.Verifier(e.suite, e.pt(in.g), e.pt(in.h), e.pts(in.x), e.pts(in.y), e.pts(in.xbar), e.pts(in.ybar))
+			}
+			if what, n := fsSensitivity(e, "PairShuffle", mk, hn.real); what != "" {
+				t.c.Violation("C15:pair:challenge-insensitive", fmt.Sprintf("%s: pair shuffle k=%d: %s", e.name, in.k, what), map[string]any{"group": e.name, "k": in.k, "proof": kc.HexB(hn.real)})
+			} else {
+				t.c.CountKindN(e.name+":pair:fs-sensitivity-probes", n)
+			}
+		}
 		full := hi%3 == 0 || hn.in.k <= 3
 		if !full {
 			continue
